@@ -1,7 +1,7 @@
 #!/bin/bash
 # every stored behaviour-preserving refactoring (harmless/<id>/patch.diff) against EVERY property whose contracts may look at the files it
 # touches: expect exit 0 everywhere.  usage: tools/harmless_all.sh [jobs]
-cd /verif
+cd "$(dirname "$0")/.." && V=$PWD
 J=${1:-3}
 one() {
   d=$1; id=$(basename $d)
@@ -32,5 +32,5 @@ one() {
   echo "$id:$res"
   git -C /repo worktree remove --force $wt
 }
-export -f one
-ls -d harmless/*/ | sed 's:/$::' | xargs -P $J -I{} bash -c 'one /verif/{}'
+export -f one; export V
+ls -d harmless/*/ | sed 's:/$::' | xargs -P $J -I{} bash -c 'one $V/{}'
